@@ -350,6 +350,31 @@ def run_reassembly(col, cfg):
         return not bad, "%s: %s" % (method_where(cls, "_vector"), "; ".join(b[:160] for b in bad))
     col.check("C01.O1r", "SolidBody(%s) re-assembled at another state" % cfg,
               "vector and matrix assembled at a second state equal those of a fresh body at that state (nothing is carried over in re-used result buffers)", chk)
+
+    def chk_region():
+        # mesh.update(points=..., callback=region.reload): Region.reload binds *new* arrays (dV, dhdX) to the region the field lives on;
+        # a body created before measures the re-evaluated region, like a body created afterwards
+        body = it.call(cls, [], dict(umat=mk(), field=fc))
+        asm = it.getattr(body, "assemble")
+        it.call(it.getattr(asm, "vector"), [fc], {})
+        it.call(it.getattr(asm, "matrix"), [fc], {})
+        old_ = (ra.dV, ra.dhdX, rb.dV)
+        ra.dV = symarray("dVnew", ra.dV.shape, positive=True)
+        ra.dhdX = symarray("dhnew", ra.dhdX.shape)
+        rb.dV = ra.dV
+        try:
+            r2 = micro.dense(it.call(it.getattr(asm, "vector"), [fc], {})).copy()
+            K2 = micro.dense(it.call(it.getattr(asm, "matrix"), [fc], {})).copy()
+            fresh = it.call(cls, [], dict(umat=mk(), field=fc))
+            rf = micro.dense(it.call(it.getattr(it.getattr(fresh, "assemble"), "vector"), [fc], {}))
+            Kf = micro.dense(it.call(it.getattr(it.getattr(fresh, "assemble"), "matrix"), [fc], {}))
+        finally:
+            ra.dV, ra.dhdX, rb.dV = old_
+        bad = diff_dense(r2, rf)[:2] + diff_dense(K2, Kf)[:2]
+        uses_new = any("dVnew" in str(P(v)) for v in rf.reshape(-1))
+        return not bad and uses_new, "%s: %s" % (method_where(cls, "_vector"), "; ".join(b[:160] for b in bad))
+    col.check("C01.O1r", "SolidBody(%s) re-assembled after its region was re-evaluated" % cfg,
+              "after Region.reload bound new differential volumes and gradients, an existing body assembles what a body created on the reloaded region assembles", chk_region)
     finish_info(col, it)
 
 
